@@ -45,6 +45,14 @@ CHECKS.update({
         text='The session machine HplSession.tla is explored by TLC to enumerate every API call schedule (all of length <= 2 over 25 calls x 6 argument selectors, length 3 over the mutating calls); each schedule is replayed on freshly parsed type-open seed ASTs and after every call the deep snapshot (structure, stored types, metadata, object ids, hashes) of every handle allocated so far is recorded; the trace spec T_C16 keeps the heap as its state and checks at every step that no earlier snapshot changed, plus the but() post-conditions (same object when nothing changes; equal to a fresh construction; metadata copied, not shared; ==/hash ignore metadata).',
         note='Bounded schedule length and a fixed set of 16 seed ASTs chosen for type openness; fresh construction is built with the same constructor arguments.',
         technique='TLC enumeration of call schedules (MC_Sched) replayed on real objects + stateful trace validation (T_C16)', design='5/C16'),
+    'C06': dict(
+        text='The session schedule Parse;Str;Parse;Str is run on every sentence of the TLC-enumerated languages and typed families plus a pool of time-bound spellings, n-ary disjunctions and constants; T_C06 checks that the printed text parses back, that the second AST equals the first (structure, types, implementation ==, hash), that the second print equals the first, and - keeping the printed forms seen so far as its state - that printing is injective on ASTs and on references.',
+        note='Injectivity is checked within each validation shard; bounded languages.',
+        technique='stateful trace validation (T_C06) of round-trip schedules over TLC-generated inputs', design='5/C06'),
+    'C07': dict(
+        text='TLC enumerates every token sequence up to a length bound over the terminal alphabet (HplTokenSeq); these, random longer sequences, single/double token mutants of the enumerated valid sentences, character noise and deeply nested texts are fed to every parser entry point; T_C07 classifies each outcome (AST or a documented error; ValueError only with an unknown function name) and, with the memo of first results as its state, requires every later call with the same text - on the same long-lived parser object after thousands of other calls, on a second object in another order, on fresh objects in all orders of small sets - to give the same outcome and the same AST.',
+        note='Arbitrary Unicode cannot be enumerated by TLC; it is sampled and only classified. Bounded lengths.',
+        technique='TLC enumeration of token sequences + stateful trace validation (T_C07)', design='5/C07'),
 })
 
 REASON_PENDING = 'check not built yet in this session (planned in DESIGN.md section 5); not claimed until its machinery exists'
